@@ -1,13 +1,116 @@
 /-
 C11 — Database transactions are all-or-nothing, isolated and ordered.
-Property theorems about `KV` (model of walletdb/bdb/db.go over bbolt).
+
+Property theorems about `KV`, the model of walletdb/bdb/db.go (+ `Update`/`View`/`Batch` of walletdb/interface.go)
+over bbolt.  A *program* is the list of calls a closure makes (`runOps` folds `step` over it); a *history* is a list
+of transactions (`runHistory`).  Every theorem quantifies over all programs / histories, all prior database states,
+all byte strings.  Helper lemmas are in `BtcwVerif/Lemmas/KV.lean`.
 -/
-import BtcwVerif.Model.KV
+import BtcwVerif.Lemmas.KV
+open Std
 namespace KV
 
-/-- A managed update whose closure fails (error or panic) and never commits through the handle itself leaves the
-committed database exactly as it was. (stub, strengthened below) -/
-theorem C11_finish_failed (t : Tx) (o : Outcome) (h : o ≠ .ok) : (finishUpdate t o).1 = t.db := by
-  cases o <;> simp_all [finishUpdate]
+/-! ## all-or-nothing -/
+
+/-- **Atomicity of `walletdb.Update`.**  Whatever calls the closure makes (puts, deletes, bucket creation and deletion,
+sequence and cursor operations, over any keys) — if it returns an error or panics, and did not itself call
+`tx.Commit()` on the handle, the database is exactly what it was, the error is handed back, and every later
+transaction behaves as if the failed one had never run ("still usable"). -/
+theorem C11_update_atomic (db : DB) (prog : List Op) (o : Outcome) (hno : Op.commit ∉ prog) (ho : o ≠ .ok) :
+    (update db prog o).1 = db ∧
+    (o = .err → (update db prog o).2.2.1 = .err .user) ∧
+    (∀ x : Txn, runTxn (update db prog o).1 x = runTxn db x) := by
+  have hdb : (update db prog o).1 = db := by
+    have := runOps_db_of_no_commit (Kind.update.begin db) prog hno
+    cases o with
+    | ok => exact absurd rfl ho
+    | err => simpa [update, runTxn, finish, finishUpdate] using this
+    | panic => simpa [update, runTxn, finish, finishUpdate] using this
+  refine ⟨hdb, ?_, fun x => by rw [hdb]⟩
+  intro e; subst e
+  simp [update, runTxn, finish, finishUpdate]
+
+/-- The hypothesis of `C11_update_atomic` is needed: bdb hands the closure an *unmanaged* bbolt transaction, so a
+closure may call `tx.Commit()` itself and then return an error — the writes stay (bbolt's own `DB.Update` would
+panic on such a call; bdb's `Update` does not use it). -/
+theorem C11_explicit_commit_escapes :
+    ∃ (prog : List Op), (update {} prog .err).1 ≠ ({} : DB) := by
+  refine ⟨[.createBucketIfNotExists [] [1], .commit], ?_⟩
+  intro h
+  have := congrArg (fun d : DB => d[([[1]] : Path)]?) h
+  simp [update, runTxn, runOps, step, Kind.begin, Tx.begin, Kind.writable, Tx.noteHandle, Tx.guardW, isBucket,
+    Tx.applyW, createBucketIfNotExists, createBucket, finish, finishUpdate, Tx.touchCursors] at this
+
+/-- **Atomicity of `walletdb.Batch`** (bbolt-managed: `Commit`/`Rollback` through the handle panic), any program. -/
+theorem C11_batch_atomic (db : DB) (prog : List Op) (o : Outcome) (ho : o ≠ .ok) :
+    (runTxn db ⟨.batch, prog, o⟩).1 = db := by
+  have := (runOps_managed_open (Kind.batch.begin db) prog rfl).2
+  cases o with
+  | ok => exact absurd rfl ho
+  | err => simpa [runTxn, finish, finishUpdate] using this
+  | panic => simpa [runTxn, finish, finishUpdate] using this
+
+/-- A hand-made read-write transaction that is dropped (rolled back) without `Commit` changes nothing. -/
+theorem C11_manual_rollback (db : DB) (prog : List Op) (o : Outcome) (hno : Op.commit ∉ prog) :
+    (runTxn db ⟨.manualRW, prog, o⟩).1 = db := by
+  simpa [runTxn, finish, finishManual] using runOps_db_of_no_commit (Kind.manualRW.begin db) prog hno
+
+/-! ## commit -/
+
+/-- **Commit makes everything visible together.**  If the closure returns nil (and did not end the transaction
+itself), `Update` answers nil, the database becomes exactly the transaction's final working state — every write
+applied, in order — and that is what any later transaction of any kind starts from, also after the file has been
+closed and reopened. -/
+theorem C11_commit_visible (db : DB) (prog : List Op) (h : ∀ op ∈ prog, op ≠ .commit ∧ op ≠ .rollback) :
+    let final := (runOps (Kind.update.begin db) prog).1.work
+    (update db prog .ok).1 = final ∧
+    (update db prog .ok).2.2.1 = .ok ∧
+    reopen (update db prog .ok).1 = final ∧
+    (∀ k : Kind, (k.begin (reopen (update db prog .ok).1)).work = final ∧ (k.begin (update db prog .ok).1).work = final) := by
+  have hopen : (runOps (Kind.update.begin db) prog).1.closed = false := runOps_open _ _ h
+  have h1 : (update db prog .ok).1 = (runOps (Kind.update.begin db) prog).1.work := by
+    simp [update, runTxn, finish, finishUpdate, hopen]
+  refine ⟨h1, ?_, h1, fun k => ⟨?_, ?_⟩⟩
+  · simp [update, runTxn, finish, finishUpdate, hopen]
+  · simp only [reopen, h1]; rfl
+  · simp only [h1]; rfl
+
+/-- Inside a transaction the committed state never moves before the commit: the calls only touch the private working
+state (isolation of uncommitted writes). -/
+theorem C11_uncommitted_invisible (t : Tx) (prog : List Op) (hno : Op.commit ∉ prog) :
+    (runOps t prog).1.db = t.db :=
+  runOps_db_of_no_commit t prog hno
+
+/-- `OnCommit` handlers run exactly when the update commits: all of them after a nil return, none after an error or a
+panic. -/
+theorem C11_oncommit_iff_commit (db : DB) (prog : List Op) (o : Outcome)
+    (h : ∀ op ∈ prog, op ≠ .commit ∧ op ≠ .rollback) :
+    (update db prog o).2.2.2 = if o = .ok then prog.count .onCommit else 0 := by
+  have hno : Op.commit ∉ prog := fun m => (h _ m).1 rfl
+  have hopen : (runOps (Kind.update.begin db) prog).1.closed = false := runOps_open _ _ h
+  have ⟨hf, hp⟩ := runOps_handlers (Kind.update.begin db) prog hno
+  simp only [begin_fired, begin_pending] at hf hp
+  cases o <;> simp [update, runTxn, finish, finishUpdate, hopen, hf, hp]
+
+/-! ## read-only transactions -/
+
+/-- **`walletdb.View` (and `BeginReadTx`) cannot modify anything**: for every program — including every mutator
+reached through the concrete types, and `Commit` — and every outcome the database is unchanged. -/
+theorem C11_view_readonly (db : DB) (prog : List Op) (o : Outcome) :
+    (viewTx db prog o).1 = db ∧ (runTxn db ⟨.manualRO, prog, o⟩).1 = db := by
+  have h1 := (runOps_readonly (Kind.view.begin db) prog rfl).2
+  have h2 := (runOps_readonly (Kind.manualRO.begin db) prog rfl).2
+  constructor
+  · cases o
+    · simp only [viewTx, runTxn, finish, finishView]
+      split <;> exact h1
+    · simpa [viewTx, runTxn, finish, finishView] using h1
+    · simpa [viewTx, runTxn, finish, finishView] using h1
+  · simpa [runTxn, finish, finishManual] using h2
+
+/-- …and not even its own working state: every read inside a read-only transaction sees the state it began with. -/
+theorem C11_view_snapshot (t : Tx) (prog : List Op) (h : t.writable = false) :
+    (runOps t prog).1.work = t.work :=
+  (runOps_readonly t prog h).1
 
 end KV
